@@ -1,4 +1,66 @@
+(* C15 — Reference names are validated like git; sanitizing always yields a valid name.
+   Only statements here; every proof is [exact <lemma>].
+   Model.v : gix-validate tag::name_inner (both modes), reference::{validate, name, name_partial,
+             name_partial_or_sanitize} as of the two `fix:` commits recorded in findings.txt.
+   Spec.v  : refs.c check_refname_component / check_refname_format (git 2.39), refname_is_safe's
+             one-level rule.  [git_check s allow] = `git check-ref-format [--allow-onelevel] s` exits 0;
+             [git_full_name s] = git_check s false || (git_check s true && one_level_safe s).
+   [is_ok o] = the call returned Ok. *)
 From GixV.Base Require Import Bytes BytesFacts Outcome.
-From GixV.C15 Require Import Model Spec.
-Example placeholder : ref_name_partial (bs "refs/heads/main") = Ok (bs "refs/heads/main").
-Proof. vm_compute. reflexivity. Qed.
+From GixV.C15 Require Import Model Spec ProofsLoop ProofsValid ProofsGit.
+
+(* partial names: accepted exactly when `git check-ref-format --allow-onelevel` accepts — for ALL byte strings *)
+Theorem partial_name_is_git : forall s, is_ok (ref_name_partial s) = git_check s true.
+Proof. intros s. rewrite git_check_valid, Bool.andb_true_r. exact (proj1 (ref_name_partial_ok s)). Qed.
+
+(* full names: git's verdict, one-level names judged by git's one-level rule (A-Z and '_' only) *)
+Theorem full_name_is_git : forall s, is_ok (ref_name s) = git_full_name s.
+Proof. intros s. rewrite git_full_name_valid. exact (proj1 (ref_name_ok s)). Qed.
+
+(* the same, spelled out: a name with a slash is judged by plain `git check-ref-format`,
+   a name without one by --allow-onelevel plus the one-level rule *)
+Theorem full_name_cases : forall s,
+  (has_slash s = true -> is_ok (ref_name s) = git_check s false) /\
+  (has_slash s = false -> is_ok (ref_name s) = git_check s true && one_level_safe s).
+Proof.
+  intros s. rewrite (proj1 (ref_name_ok s)), !git_check_valid. unfold valid_full, one_level_safe.
+  fold (upper_us s). split; intros ->; cbn [orb]; rewrite ?Bool.andb_true_r, ?Bool.andb_false_r; reflexivity.
+Qed.
+
+(* tag names (gix_validate::tag::name) differ from partial reference names only in the name "@" *)
+Theorem tag_name_is_git_or_at : forall s, is_ok (tag_name s) = git_check s true || bytes_eqb s [at_].
+Proof.
+  intros s. rewrite (proj1 (tag_name_ok s)), git_check_valid, Bool.andb_true_r. unfold valid_partial.
+  destruct (bytes_eqb s [at_]) eqn:E.
+  - apply bytes_eqb_eq in E. subst s. reflexivity.
+  - cbn [negb]. rewrite Bool.andb_true_r, Bool.orb_false_r. reflexivity.
+Qed.
+
+(* the validators never panic and never loop, and a successful validation returns its input unchanged *)
+Theorem validators_total : forall s,
+  (ref_name s <> Panic /\ ref_name s <> OutOfFuel /\ forall o, ref_name s = Ok o -> o = s) /\
+  (ref_name_partial s <> Panic /\ ref_name_partial s <> OutOfFuel /\ forall o, ref_name_partial s = Ok o -> o = s) /\
+  (tag_name s <> Panic /\ tag_name s <> OutOfFuel /\ forall o, tag_name s = Ok o -> o = s).
+Proof.
+  intros s. split; [|split].
+  - exact (proj2 (ref_name_ok s)).
+  - exact (proj2 (ref_name_partial_ok s)).
+  - exact (proj2 (tag_name_ok s)).
+Qed.
+
+(* PartialName::join(base, component) is the partial-name check of base/component *)
+Theorem join_is_git : forall base comp,
+  is_ok (partial_join base comp) = git_check (base ++ slash :: comp) true.
+Proof. intros. unfold partial_join. apply partial_name_is_git. Qed.
+
+(* the transcription of git's loop has enough fuel for every NUL-free name *)
+Theorem spec_total : forall s allow, existsb (beqb x00) s = false ->
+  exists b, check_refname_format s allow = Ok b.
+Proof. exact check_refname_format_total. Qed.
+
+(* non-vacuity / sanity *)
+Example ex_accept : is_ok (ref_name (bs "refs/heads/main")) = true /\ is_ok (ref_name (bs "FETCH_HEAD")) = true
+  /\ is_ok (ref_name (bs "main")) = false /\ is_ok (ref_name_partial (bs "main")) = true
+  /\ is_ok (ref_name_partial (bs "@")) = false /\ is_ok (tag_name (bs "@")) = true
+  /\ is_ok (ref_name_partial (bs "a.lock/b")) = false /\ has_slash (bs "a/b") = true.
+Proof. vm_compute. repeat split. Qed.
